@@ -25,7 +25,8 @@ EXPLANATION = (
     "later collection removes only unreachable, unprotected, old files; (R5) a writer that died while holding the S3 "
     "lock does not wedge the table: taking over the expired lock IS acquiring it (shared with C19.R3)."
     " (R6) the O_EXCL existence lock (not released when its holder dies) is reached only when neither fcntl nor msvcrt exists; (R7) an unparseable in-flight marker left by a dead writer falls back instead of aborting every later collection; (R8) the 'pointer moved' conflict of the CAS path is raised only on a parsed pointer (a creator that died before the first pointer write does not wedge the table)."
-    ' (R9/R10) write-once namespace and who-may-delete censuses (shared with C09.R1/R3): every file a dying process can leave is the pointer, a marker or a fresh name, and recovery / maintenance code never deletes on its own judgement.')
+    ' (R9/R10) write-once namespace and who-may-delete censuses (shared with C09.R1/R3): every file a dying process can leave is the pointer, a marker or a fresh name, and recovery / maintenance code never deletes on its own judgement.'
+    ' (R13) storage effects are synchronous (C16.R9).')
 NOT_DECIDED = ("the reopen-and-compare statement over every crash point; atomicity of os.replace / PUT; that a "
                "later collection removes only leftovers")
 
@@ -54,6 +55,10 @@ def check(ctx: Ctx) -> None:
     # an ambiguous pointer write keeps every file: 'resolving' it by a re-read races with the write landing later
     from .c04 import r3 as c04_r3
     ctx.shared(c04_r3, "C04.R3", "C03.R12", "the ambiguous-outcome handler never deletes")
+    # "crash at any point": the write-before-publish order is read off the committing thread's call sequence - a write that
+    # runs on another thread has no place in that order
+    from .c16 import no_deferred_storage_effects
+    no_deferred_storage_effects(ctx, "C03.R13")
 
 
 def r5(ctx: Ctx) -> None:
